@@ -225,22 +225,125 @@ def c_center(s, p, got, info):
     return ("centered", f"{_r(got)} is not {_r(s)} centred in {w}")
 
 
-def c_title(s, p, got, info):
-    if not isinstance(got, str) or len(got) != len(s):
-        return ("result", f"length changed: {_r(got)}")
-    for i, (a, b) in enumerate(zip(s, got)):
-        if a.lower() != b.lower():
-            return ("result", f"character {i} {a!r} became {b!r}")
-        if a.upper() == a.lower():
-            continue  # uncased
-        if i == 0 or s[i - 1].isspace():
-            if b != a.upper():
-                return ("word-start", f"word start {a!r} at {i} not uppercased: {_r(got)}")
-        elif s[i - 1].isalpha():
-            if b != a.lower():
-                return ("word-rest", f"character {a!r} at {i} inside a word not lowercased: "
-                                     f"{_r(got)}")
+# ------------------------------------------------------------- title / capitalize
+# "words will start with uppercase letters, all remaining characters are
+# lowercase" / "The first character will be uppercase, all others lowercase".
+# For letters with a one-to-one case mapping that is unambiguous.  For the
+# others ('\u00df', ligatures, the digraphs U+01C4..U+01CC whose titlecase form is
+# not their uppercase form, final sigma, dotted capital I) the statement is
+# read per input character, and every reading the words allow is accepted:
+#   word start   the uppercase mapping of the character (c.upper()), or - when
+#                that mapping has several characters - a form whose first
+#                character is an uppercase letter and whose others are lowercase
+#                ('\u00df' -> 'SS' or 'Ss');  a titlecase digraph ('\u01c5') is neither
+#   word rest    the lowercase mapping; capital sigma may become either small sigma
+#   elsewhere    (after a digit, punctuation, a mark that follows no letter: the
+#                documentation does not say what a word is) upper, lower or title
+# The result must be a concatenation of one accepted form per input character.
+_SIGMAS = ("\u03c3", "\u03c2")
+
+
+def _is_mark(c):
+    import unicodedata
+
+    return unicodedata.category(c) in ("Mn", "Mc", "Me")
+
+
+def _cased(c):
+    return c.upper() != c or c.lower() != c
+
+
+def _lower_forms(c):
+    forms = {c.lower()}
+    if c.lower() in _SIGMAS:
+        forms.update(_SIGMAS)
+    return forms
+
+
+def _start_forms(c):
+    forms = {c.upper()}
+    t = c.title()
+    if len(t) > 1 and t[0].isupper() and t[1:] == t[1:].lower():
+        forms.add(t)
+    return forms
+
+
+def _positions(s, only_first):
+    """Per character: ('start' | 'rest' | 'free' | 'same', accepted forms)."""
+    out = []
+    for i, c in enumerate(s):
+        if not _cased(c):
+            out.append(("same", {c}))
+            continue
+        if i == 0:
+            out.append(("start", _start_forms(c)))
+            continue
+        if only_first:
+            out.append(("rest", _lower_forms(c)))
+            continue
+        if s[i - 1].isspace():
+            out.append(("start", _start_forms(c)))
+            continue
+        j = i - 1
+        while j >= 0 and _is_mark(s[j]):
+            j -= 1
+        if j >= 0 and s[j].isalpha():
+            out.append(("rest", _lower_forms(c)))
+        else:
+            out.append(("free", _start_forms(c) | _lower_forms(c) | {c.title()}))
+    return out
+
+
+def _match_forms(s, got, only_first):
+    """None if ``got`` is a concatenation of accepted forms, else (index of the
+    first input character that cannot be matched, its position kind, forms)."""
+    pos = _positions(s, only_first)
+    reach = {0}
+    for i, (kind, forms) in enumerate(pos):
+        nxt = set()
+        for off in reach:
+            for f in forms:
+                if got.startswith(f, off):
+                    nxt.add(off + len(f))
+        if not nxt:
+            return i, kind, forms, min(reach)
+        reach = nxt
+    if len(got) not in reach:
+        return len(s), "end", set(), max(reach)
     return None
+
+
+def _c_cased(s, got, only_first, what):
+    if not isinstance(got, str):
+        return ("type", f"returned {type(got).__name__}")
+    bad = _match_forms(s, got, only_first)
+    if bad is None:
+        return None
+    i, kind, forms, off = bad
+    if kind == "end":
+        return ("result", f"extra text {_r(got[off:])} after the last character: {_r(got)}")
+    c = s[i]
+    seen = got[off:off + max(len(f) for f in forms)]
+    if kind == "start":
+        aspect = "word-start" if not only_first else "first-char"
+        if c.title() != c.upper() and got.startswith(c.title(), off):
+            # the titlecase mapping (str.title / str.capitalize) instead of the uppercase one
+            aspect += ":titlecase-form-not-uppercase"
+        return (aspect, f"{what} {c!r} (U+{ord(c):04X}) at {i} became {_r(seen)}, its uppercase "
+                        f"form is {c.upper()!r}: {_r(got)}")
+    if kind == "rest":
+        return ("word-rest" if not only_first else "rest",
+                f"character {c!r} (U+{ord(c):04X}) at {i} after the {what} became {_r(seen)}, its "
+                f"lowercase form is {c.lower()!r}: {_r(got)}")
+    return ("result", f"character {c!r} at {i} became {_r(seen)}: {_r(got)}")
+
+
+def c_title(s, p, got, info):
+    return _c_cased(s, got, False, "word start")
+
+
+def c_capitalize(s, p, got, info):
+    return _c_cased(s, got, True, "first character")
 
 
 def c_wordcount(s, p, got, info):
@@ -503,8 +606,7 @@ def check(name, value, args, kwargs, out, info):
     if name == "lower":
         return _exact(got, str(value).lower())
     if name == "capitalize":
-        s = str(value)
-        return _exact(got, s[:1].upper() + s[1:].lower())
+        return c_capitalize(str(value), p, got, info)
     if name == "title":
         return c_title(str(value), p, got, info)
     if name == "replace":
